@@ -383,8 +383,10 @@ def r196(ctx, fx):
         key = "%s|fresh-registers" % f.path
         miss = []
         for what in ("MachineAdapter::registers", "MachineAdapter::flags", "ensure_cpu_symbols"):
-            through = [bi for bi, t in lib.calls(f) if lib.norm(lib.callee(t)[0] or "").endswith(what.split("::")[-1]) and what.split("::")[0] in (lib.callee(t)[0] or "")
-                       or lib.norm(lib.callee(t)[0] or "").endswith("::" + what)]
+            # direct calls, or calls of a workspace helper on all of whose success paths the call happens (wrapper summaries, error exits excepted)
+            def pred(p, what=what):
+                return (lib.norm(p).endswith(what.split("::")[-1]) and what.split("::")[0] in p) or lib.norm(p).endswith("::" + what)
+            through = lib.MustCall(fx, pred, depth=2).call_blocks(f)
             if not through or not all(lib.must_pass(f, through, e) for e in evs):
                 miss.append(what)
         ctx.inst(rid, key, sample={"fn": f.path, "evaluations": len(evs), "not_on_every_path": miss})
